@@ -673,7 +673,12 @@ def _fault_for(mode, info):
     return None
 
 
+SINK = None      # in-process observers set this to a list
+
+
 def _log(info):
+    if SINK is not None:
+        SINK.append(info)
     path = os.environ.get('XMLSEC_STANDIN_LOG')
     if path:
         info['tid'] = os.environ.get('XMLSEC_STANDIN_TID')
